@@ -479,6 +479,13 @@ static void count_struct_regs(Type *ty, int *gp, int *fp) {
   *gp = (ty->size > 8 ? 2 : 1) - *fp;
 }
 
+// A struct or union larger than 16 bytes is passed in memory. An empty
+// one ([GNU] `struct E {}`) occupies no register and no stack space;
+// it is handled as a memory argument of size zero.
+static bool pass_in_memory(Type *ty) {
+  return ty->size > 16 || ty->size == 0;
+}
+
 static void push_struct(Type *ty) {
   int sz = align_to(ty->size, 8);
   println("  sub $%d, %%rsp", sz);
@@ -553,7 +560,7 @@ static int push_args(Node *node) {
     switch (ty->kind) {
     case TY_STRUCT:
     case TY_UNION:
-      if (ty->size > 16) {
+      if (pass_in_memory(ty)) {
         arg->pass_by_stack = true;
         stack += align_to(ty->size, 8) / 8;
       } else {
@@ -615,6 +622,10 @@ static void copy_ret_buffer(Obj *var) {
   Type *ty = var->ty;
   int gp = 0, fp = 0;
 
+  // An empty struct is returned in no register.
+  if (ty->size == 0)
+    return;
+
   if (has_flonum1(ty)) {
     assert(ty->size == 4 || 8 <= ty->size);
     if (ty->size == 4)
@@ -651,6 +662,9 @@ static void copy_ret_buffer(Obj *var) {
 static void copy_struct_reg(void) {
   Type *ty = current_fn->ty->return_ty;
   int gp = 0, fp = 0;
+
+  if (ty->size == 0)
+    return;
 
   println("  mov %%rax, %%rdi");
 
@@ -964,7 +978,7 @@ static void gen_expr(Node *node) {
       switch (ty->kind) {
       case TY_STRUCT:
       case TY_UNION:
-        if (ty->size > 16)
+        if (pass_in_memory(ty))
           continue;
 
         bool fp1 = has_flonum1(ty);
@@ -1440,7 +1454,7 @@ static void assign_lvar_offsets(Obj *prog) {
       switch (ty->kind) {
       case TY_STRUCT:
       case TY_UNION:
-        if (ty->size <= 16) {
+        if (!pass_in_memory(ty)) {
           int ngp, nfp;
           count_struct_regs(ty, &ngp, &nfp);
           if (fp + nfp <= FP_MAX && gp + ngp <= GP_MAX) {
